@@ -9,6 +9,9 @@ CONSTANTS
   MaxUnblockPop = 1
   AllowDestroy = TRUE
   Fixed = TRUE
-INVARIANTS TypeOK Bound BlockedOnlyWhenFull NeverBothNonEmpty PendingHoldsItem NoLossNoDup NoDupEver DeliveredInOrder QueueOrder BlockedFIFO AdmittedLePops WithdrawnIsGone WaitersFIFO NoLostWaiter PopExcOnlyByUnblock DestroyCancels CancelOnlyByDestroy
-PROPERTIES PushReadyIffRoom OnePerPop UnblockPushWithdraws AllResolved
+  MaxThrow = 0
+  ThrowAtHandover = FALSE
+  FormShift = 0
+INVARIANTS TypeOK Bound BlockedOnlyWhenFull NeverBothNonEmpty PendingHoldsItem NoPhantomBackPressure NoLossNoDup NoDupEver DeliveredInOrder QueueOrder BlockedFIFO AdmittedLePops WithdrawnIsGone WaitersFIFO NoLostWaiter PopExcOnlyByUnblock DestroyCancels CancelOnlyByDestroy
+PROPERTIES PushReadyIffRoom ThrowLeavesNoTrace OnePerPop UnblockPushWithdraws AllResolved
 CHECK_DEADLOCK FALSE
